@@ -44,24 +44,54 @@ pub enum Timed {
     TimeOutHolderDone,
 }
 
-pub static VERIF_ON_BLOCK: Global<Option<fn()>> = Global::new(None);
-pub static VERIF_ON_TIMED: Global<Option<fn() -> Timed>> = Global::new(None);
+/// Outcomes of the successive timed lock attempts on a HELD mutex, base-3 digits (first attempt =
+/// lowest digit): 0 Acquire, 1 TimeOut, 2 TimeOutHolderDone. Set by the harness. (No function
+/// pointer hooks: CBMC's function-pointer removal made every run with installed hooks report
+/// spurious invalid pointers.)
+pub static VERIF_TIMED_SEQ: Global<u32> = Global::new(0);
+/// ghost: how many timed attempts ended as TimeOutHolderDone
+pub static VERIF_HOLDER_DONE: Global<usize> = Global::new(0);
+
+fn next_timed() -> Timed {
+    let s = VERIF_TIMED_SEQ.get();
+    let k = *s % 3;
+    *s /= 3;
+    match k {
+        0 => {
+            let ran = rayon::verif_run_pending();
+            assert!(ran, "ENGINE timed lock on a held mutex but no pool task is pending");
+            Timed::Acquire
+        }
+        1 => Timed::TimeOut,
+        _ => {
+            let ran = rayon::verif_run_pending();
+            assert!(ran, "ENGINE timed lock on a held mutex but no pool task is pending");
+            *VERIF_HOLDER_DONE.get() += 1;
+            Timed::TimeOutHolderDone
+        }
+    }
+}
 /// number of lock acquisitions / failed timed attempts (ghost counters for the harness)
 pub static VERIF_ACQUIRED: Global<usize> = Global::new(0);
 pub static VERIF_TIMEOUTS: Global<usize> = Global::new(0);
 
 pub struct RawMutex;
 
+/// The protected value lives in its own heap allocation. (With the value stored inline, the
+/// `Arc<Mutex<Worker>>` allocation is one large untyped byte object for CBMC, and symbolic
+/// execution of anything that reads vector lengths out of it either does not finish or - with a
+/// larger --max-field-sensitivity-array-size - reports spurious invalid pointers; a value boxed
+/// on its own behaves. Measured with the probes recorded in DESIGN.md.)
 pub struct Mutex<T: ?Sized> {
     held: UnsafeCell<bool>,
-    data: UnsafeCell<T>,
+    data: Box<UnsafeCell<T>>,
 }
 unsafe impl<T: ?Sized + Send> Send for Mutex<T> {}
 unsafe impl<T: ?Sized + Send> Sync for Mutex<T> {}
 
 impl<T> Mutex<T> {
-    pub const fn new(v: T) -> Self {
-        Mutex { held: UnsafeCell::new(false), data: UnsafeCell::new(v) }
+    pub fn new(v: T) -> Self {
+        Mutex { held: UnsafeCell::new(false), data: Box::new(UnsafeCell::new(v)) }
     }
 }
 
@@ -74,10 +104,9 @@ impl<T: ?Sized> Mutex<T> {
     }
     fn wait_for_holder(&self) {
         if *self.held() {
-            match *VERIF_ON_BLOCK.get() {
-                Some(f) => f(),
-                None => panic!("ENGINE parking_lot shim: blocking on a held lock with no holder to run (deadlock in the model)"),
-            }
+            // a blocked thread lets the holder - the parked pool task - run to completion
+            let ran = rayon::verif_run_pending();
+            assert!(ran, "ENGINE parking_lot shim: blocking on a held lock with no holder to run (deadlock in the model)");
             assert!(!*self.held(), "ENGINE parking_lot shim: holder did not release the lock");
         }
     }
@@ -89,10 +118,7 @@ impl<T: ?Sized> Mutex<T> {
     }
     pub fn try_lock_for(&self, _d: Duration) -> Option<MutexGuard<'_, T>> {
         if *self.held() {
-            let o = match *VERIF_ON_TIMED.get() {
-                Some(f) => f(),
-                None => Timed::TimeOut,
-            };
+            let o = next_timed();
             if o != Timed::Acquire || *self.held() {
                 *VERIF_TIMEOUTS.get() += 1;
                 return None;
@@ -110,10 +136,7 @@ impl<T: ?Sized> Mutex<T> {
     }
     pub fn try_lock_arc_for(self: &Arc<Self>, _d: Duration) -> Option<ArcMutexGuard<RawMutex, T>> {
         if *self.held() {
-            let o = match *VERIF_ON_TIMED.get() {
-                Some(f) => f(),
-                None => Timed::TimeOut,
-            };
+            let o = next_timed();
             if o != Timed::Acquire || *self.held() {
                 *VERIF_TIMEOUTS.get() += 1;
                 return None;
